@@ -91,6 +91,7 @@ PROPS["C10"] = {
         H(JRN, "c10_journal_geometry", "2 slots x 3 blocks in blocks 1..7; a 1024-entry image fits a slot; image size formula", "all counts <= 1024"),
         H(IO, "c10_metadata_block_padding", "metadata image is zero-padded to one block", "all 136-byte images"),
         H(REC, "c10_complete_retirement_block_acceptance", "recovery accepts a tail marker block iff tag, remaining, state=1 and sector-bound token match", "<=24 bytes"),
+        H(SEQ, "c17_header_range_block", "writer (token stamping) and recovery accept a head block iff 1 <= key_len <= the documented recoverable maximum (4066 v2/v3, 4074 v1): a record whose header exactly fills the block is stamped and recoverable", "all u16 key lengths"),
         H(REC, "c03_reader_token_equals_writer_token", "recovery's head+tail CRC folding feeds the same message as the writer's token", "40-byte extent, any head/tail split", tier="thorough"),
     ],
     "bounds": "see per-harness bounds; keys 3 bytes (symbolic content), extents <= 48 bytes for token coverage, 1-2 blocks for markers, 0-2 journal extents",
@@ -237,14 +238,15 @@ PROPS["C19"] = {
 
 PROPS["C20"] = {
     "technique": "bounded model checking (Kani/CBMC, pointer checks on) of the in-flight buffer ownership rule",
-    "level_text": "SAT-decided for 3 buffers and any 4 mark_* calls: at drop a buffer whose in-flight bit is set is leaked (never freed while the kernel may still read it), every other buffer is freed exactly once, none twice.",
+    "level_text": "SAT-decided for 3 buffers and any 4 mark_* calls: at drop a buffer whose in-flight bit is set is leaked (never freed while the kernel may still read it), every other buffer is freed exactly once, none twice. AlignedBuffer::new(n) for every 1 <= n <= 8192: capacity is the block-rounded size and the full-capacity slice lies inside the posix_memalign allocation (CBMC pointer checks).",
     "level_note": "One sequential unit. Epoch reclamation, io_uring and every interleaving are outside the claim.",
-    "functions": [IO + "::mark_in_flight", IO + "::mark_unqueued", IO + "::mark_complete"],
-    "kani": [H(IO, "c20_inflight_buffers_drop_exactly_once", "drop-exactly-once / leak-if-in-flight", "3 buffers, 4 operations")],
+    "functions": [IO + "::mark_in_flight", IO + "::mark_unqueued", IO + "::mark_complete", "src/utils/allocator.rs::new", "src/utils/allocator.rs::set_len", "src/utils/allocator.rs::allocate_aligned"],
+    "kani": [H(IO, "c20_inflight_buffers_drop_exactly_once", "drop-exactly-once / leak-if-in-flight", "3 buffers, 4 operations"),
+             H("src/utils/allocator.rs", "c20_aligned_buffer_capacity_is_allocated", "AlignedBuffer::new(n): the advertised capacity is really allocated (first and last byte of the full-capacity slice are in bounds)", "1 <= n <= 8192")],
     "bounds": "3 buffers, 4 operations",
     "stubs": [],
     "assumptions": [],
-    "outside": "TreeSlot epoch reclamation, io_uring submissions, AlignedBuffer FFI, concurrency",
+    "outside": "TreeSlot epoch reclamation, io_uring submissions, concurrency",
 }
 
 E2NOTE = "E2: functions are encoded from `cargo +nightly rustc -Zunpretty=mir` of /repo's working tree by lib/mir.py; references are identified with referents; struct fields / enum payloads are uninterpreted functions; calls outside the reviewed table return havocked values; the scc entry guard is trusted to serialise mutations of one key"
